@@ -79,12 +79,12 @@ theorem sum_filter_pos_cells [Inhabited α] (l : List (BCell α)) (h : ∀ b ∈
       simp [List.filter_cons, this, ih']
 
 /-- T10 (whole harvest, with the reason for an empty release): as `C10_harvest_conservation`, and when nothing at all is
-released the root itself fails the low-count filter on the rows it holds (it is a suppressed leaf) — a branch always
-releases something adding up to its count. -/
+released the root itself fails the low-count filter on the rows it holds (it is a suppressed leaf); otherwise the root is a
+branch or a leaf that passes the filter, and the counts add up to its released count or one less. -/
 theorem C10_harvest_conservation_strong [Inhabited α] (E : Env α) (c : FCtx α) (hlt : 0 ≤ c.ap.supp.lt) (root : Node α)
     (hsh : Shape root) (stream : List Nat) (bs : List (BCell α)) (n : Nat) (h : harvest E c root stream = .ok (bs, n)) :
     (bs = [] ∧ root.overThreshold E c c.ap.supp.lt = false) ∨
-      ∃ N, root.noisyCount E c = .ok N ∧ ((bs.map (·.count)).sum = N ∨ (bs.map (·.count)).sum = N - 1) := by
+      (root.isLeaf = true → root.overThreshold E c c.ap.supp.lt = true) ∧ ∃ N, root.noisyCount E c = .ok N ∧ ((bs.map (·.count)).sum = N ∨ (bs.map (·.count)).sum = N - 1) := by
   unfold harvest at h
   split at h
   · cases h
@@ -94,10 +94,10 @@ theorem C10_harvest_conservation_strong [Inhabited α] (E : Env α) (c : FCtx α
     have hG0 : GInv E c root ({ stream := stream } : HState α) :=
       ⟨fun id hid => by simp at hid, fun p hp => by simp at hp, fun id hid => by simp at hid⟩
     obtain ⟨⟨_, hG, hgood⟩, hcons⟩ := (harvest_all E c hlt root 100000).1 root _ ids s hsh Reach.refl hG0 hrun
-    rcases hcons (by simp) with ⟨rfl, hsup⟩ | ⟨N, hN, hsum⟩
+    rcases hcons (by simp) with ⟨rfl, hsup⟩ | ⟨hrel, N, hN, hsum⟩
     · left; exact ⟨by simp, hsup⟩
     · right
-      refine ⟨N, hN, ?_⟩
+      refine ⟨hrel, N, hN, ?_⟩
       have e := sum_filter_pos_cells (ids.map fun id => s.cells[id]!) (by
         intro b hb
         obtain ⟨id, hid, rfl⟩ := List.mem_map.mp hb
@@ -114,7 +114,7 @@ or their counts add up to the root's released count or one less. (`low_threshold
 theorem C10_harvest_conservation [Inhabited α] (E : Env α) (c : FCtx α) (hlt : 0 ≤ c.ap.supp.lt) (root : Node α)
     (hsh : Shape root) (stream : List Nat) (bs : List (BCell α)) (n : Nat) (h : harvest E c root stream = .ok (bs, n)) :
     bs = [] ∨ ∃ N, root.noisyCount E c = .ok N ∧ ((bs.map (·.count)).sum = N ∨ (bs.map (·.count)).sum = N - 1) := by
-  rcases C10_harvest_conservation_strong E c hlt root hsh stream bs n h with ⟨h1, _⟩ | h2
+  rcases C10_harvest_conservation_strong E c hlt root hsh stream bs n h with ⟨h1, _⟩ | ⟨_, h2⟩
   · exact Or.inl h1
   · exact Or.inr h2
 
